@@ -52,6 +52,34 @@ Theorem C17_repeated_polls_drain : forall n s B,
 Proof. exact drains. Qed.
 Print Assumptions C17_repeated_polls_drain.
 
+(* The boolean monitor evaluated on the implementation's observations is exactly this
+   statement ([spec], [step_ok], [waiting], [arrived], [handed], [live] in Proofs/C17.v).
+   Inside the property's quantifier - arrivals with segment size None or 1..65535, at least
+   one receive buffer in the history before the first Close and all of those of one size
+   B <= u64::MAX - the monitor accepts the observations [o] of history [i] iff
+     - every event before the first Close has an observation, exactly one per event if the
+       queue is never closed, and
+     - for every such event e with observation ob, h being the (event, observation) pairs
+       before it:
+         e an arrival: ob is an arrival's observation, and if the poller is waiting after h
+           (the last step of h other than polls without buffers is a poll that answered
+           Pending) the arrival reported that it woke the poller;
+         e a poll with at least one buffer: ob is either Ready with at least one slot, every
+           slot's meta.len equal to its data length, and the datagrams handed out so far
+           followed by those of these slots are a PREFIX of the datagrams that arrived so far
+           and fit B (arrival order, each once, nothing invented, nothing that does not fit);
+           or Pending with the waker registered and EVERYTHING that arrived so far and fits B
+           already handed out (nothing left behind: no wedge).  Any other answer (closed-queue
+           error while the queue is open, stuck) is rejected;
+         e a poll without buffers: ob is a poll's observation (nothing is asked of it).
+   Outside the quantifier the monitor accepts everything (monitor_outside in Proofs/C17.v). *)
+Theorem C17_monitor_is_property : forall (i : input) (o : output) (B : N),
+  Forall (fun e => wf_ev e = true) i ->
+  buf_sizes i <> [] -> Forall (eq B) (buf_sizes i) -> B <= U64_MAX ->
+  (monitor i o = true <-> spec B i o).
+Proof. exact monitor_spec. Qed.
+Print Assumptions C17_monitor_is_property.
+
 (* The loop never runs out of fuel and the model's output satisfies the monitor, for EVERY input. *)
 Theorem C17_model_satisfies_monitor : forall i, monitor i (model i) = true.
 Proof. exact model_monitor. Qed.
